@@ -50,6 +50,28 @@ mod verif_c14_bitset {
         kani::cover!(v1 / 512 > v2 / 512);
         kani::cover!(v1 / 512 == v2 / 512 && v1 != v2);
     }
+    //@harness unit=U14.2r fns=BitSet::iter_ranges,BitSetRangeIter::next,BitSetRangeIter::next_range,BitSetRangeIter::move_to_next_page,BitPage::iter_ranges timeout=1800 bound="sets of 2 members anywhere in 3 pages (incl. a run ending at a page edge followed by an absent page)" note="iter_ranges yields exactly the maximal runs of members, ascending: ranges merge across a page boundary only when the values are numerically adjacent"
+    #[kani::proof]
+    #[kani::unwind(12)]
+    fn bitset_iter_ranges_two_members() {
+        let (v1, v2) = (any_val(), any_val());
+        let s = build(v1, v2);
+        let (lo, hi) = if v1 <= v2 { (v1, v2) } else { (v2, v1) };
+        let mut it = s.iter_ranges();
+        let r1 = it.next();
+        let r2 = it.next();
+        let r3 = it.next();
+        if lo == hi {
+            assert!(r1 == Some(lo..=lo) && r2.is_none());
+        } else if lo + 1 == hi {
+            assert!(r1 == Some(lo..=hi) && r2.is_none());
+        } else {
+            assert!(r1 == Some(lo..=lo) && r2 == Some(hi..=hi) && r3.is_none());
+        }
+        kani::cover!(lo % 512 == 511 && hi == lo + 1);
+        kani::cover!(lo == 511 && hi == 1024);
+        kani::cover!(lo / 512 == hi / 512 && lo + 1 < hi);
+    }
     // NOTE: harnesses for BitSet::{intersect, union, subtract, reversed_subtract} through the in-place page merge
     // `process` (two operands of two members each) exhausted CBMC's memory (> 16 GB, also with concrete page shapes) and
     // were removed: the page merge stays an ASSUMED contract in the IntSet proof (unit U14.3). Its compaction step is
